@@ -52,7 +52,7 @@ CloneIndependent == [][ n' = n => (parent' = parent /\ Obs(parent') = Obs(parent
 ExampleTotal == last.outcome \in {"none", "ok", "resolver", "nameres", "type", "runtime"}
 SameAsSubmit == [][ n' = n => \E input \in ExampleInputs : clone' = Submit(parent, input).st ]_vars
 \* a failing example leaves even the clone as the parent was (C06 on the clone)
-FailedCloneIsParent == (last.outcome \notin {"none", "ok"}) => Obs(clone) = Obs(parent)
+FailedCloneIsParent == [][ (n' = n /\ last'.outcome \notin {"none", "ok"}) => Obs(clone') = Obs(parent) ]_vars
 \* verdicts of the property on the modelled examples: a failing example is rejected unless exempt
 Verdicts == /\ Accepted("ok", "sqrt", FALSE)
             /\ ~Accepted("runtime", "sqrt", FALSE) /\ ~Accepted("type", "head", FALSE) /\ ~Accepted("import", "rgb", FALSE)
